@@ -102,7 +102,9 @@ def run(ctx):
             if got != occurs:
                 fails.append({"case": {"rule": rn, "child": c}, "what": f"is_allowed_child({c!r}) of {rn} = {got}, but the name {'occurs' if occurs else 'does not occur'} in a valid child sequence"})
         # every OTHER name of the vocabulary (all known elements the rule does not mention): never allowed, always refused
-        for c in ri.mappings:
+        # ... and spellings that merely CONTAIN a declared name (a prefix, a suffix, other case, surrounding blanks): names are exact strings
+        variants = [v for d_ in sorted(flat) for v in ("eml:" + d_, d_ + ":x", ":" + d_, d_.upper(), " " + d_, d_ + " ", d_ + "s") if v not in flat]
+        for c in list(ri.mappings) + variants:
             if c in flat:
                 continue
             n += 1
